@@ -14,7 +14,7 @@ CLAIMS = {
        "denotations, for all reals in the representable domain (Canon). Cross-system equal/not_equal are covered structurally (C12 theorems). "
        "Method-level pass-through rules by the glue model + exact symbolic correspondence. REGULARITY: for every module and key the generated predicate evalDom "
        "(no division by zero, sqrt/log/arccos/tan inside their domains) is proved on the same hypotheses (Dom/*.lean) and paired with the refinement statement in "
-       "Props/Regular.lean (82 theorems regular_<module>), so no statement relies on Lean's totalised x/0 = 0. Known findings: to_beta3 and Et for t<0, Mt2 clamp for spacelike tau storage.",
+       "Props/Regular.lean (82 theorems regular_<module>), so no statement relies on Lean's totalised x/0 = 0. Known findings: to_beta3 and Et for t<0, Mt2 clamp for spacelike tau storage. EXPRESSIONS (Props/MethodExpr.lean): for every finite expression built from the public methods (add, subtract, scale, neg, rotateZ/X/Y, cross, unit, the to_<system> conversions, axis boosts, boost_p4, boost_beta3, dimension changes; scalar accessors, dot and the angular methods) the modelled evaluation succeeds and denotes the storage-free specification on Cartesian components, by induction over the expression, under a genericity predicate on the DENOTATIONS of the subexpressions only; corollary: environments holding the same geometric vectors in any coordinate systems, flavors and backends give the same value (c01e_indep*).",
   note=TB + "float64 rounding and singular strata (zero vector, on-axis theta/eta, t=0) are not modelled; every run also sweeps the laws on the real code at 50 digits (exploration).",
   technique="Lean 4 refinement proofs over translator-generated model; translation validation; mp law sweep as failing-input search"),
  "C02": dict(category="proof", design="4/C02",
@@ -95,14 +95,14 @@ CLAIMS = {
   text="Lean model numbaCall of what COMPILED code returns (typing-time decisions of _numba_object.py: group by minimum dimension, signature, table lookup in the same generated tables, result class) "
        "next to the interpreter model call; theorems: for every supported property/method, whenever the interpreter succeeds and flavors agree the compiled result is identical (module, key, argument order, "
        "class, coordinates), plus the exact characterisation of every difference (mixed flavor, boosts take self's class, mixed dimensions, unsupported names, keyword arguments, order-string case). API SWEEP: every attribute, method, operator and constructor form numba's typing context resolves is compiled and compared with the interpreter (about 475 expressions per quick run), plus Awkward arrays (also with raw momentum field names) iterated in compiled code. "
-       "Tie: numba's typing context asked for ~650 result types per quick run (19 960 in the agent's validation, 0 mismatches) and parallel compile-and-run probes (values and classes vs the interpreter).",
+       "Tie: numba's typing context asked for ~650 result types per quick run (19 960 in the agent's validation, 0 mismatches) and parallel compile-and-run probes (values and classes vs the interpreter). OVER THE REALS (Props/MethodBackends.lean, c07m_): EvTables for the real layer, numbaCall = call for every supported family whenever the interpreter succeeds, so every method-level denotation theorem transfers to compiled code; the documented differences (mixed flavor, mixed dimensions) characterised over the reals.",
   note=GL + "the Numba compiler (LLVM code generation) is not modelled; three known findings (mixed flavor, boost flavor, order case).",
   technique="Lean 4 proofs relating two hand-written executable models + numba typing-context / compile-and-run correspondence"),
  "C08": dict(category="proof", design="4/C08",
   text="Third generated copy Gen/Sym of all 2433 compute functions as vector._lib.SympyLib evaluates them (probed each run: nan_to_num=id, maximum/minimum=first symbolic argument, copysign(a,b)=a, "
        "isclose=Eq). Kernel-checked: VS.f = VR.f unconditionally for the 1222 functions free of those primitives (generated with the model) and 42 all-keys eval theorems; for ALL 1211 remaining functions "
        "VS.f = VR.f under the regular-domain hypothesis that makes the dropped clamp/sign inactive (0 <= tau, not spacelike, 0 <= gamma, clamp range), with all-keys theorems for 36 modules; symbolic isclose = equal. "
-       "Tie: translator + SympyLib probe; the SymPy backend's expressions .subs().evalf(40) vs the 50-digit object backend on the regular domain.",
+       "Tie: translator + SympyLib probe; the SymPy backend's expressions .subs().evalf(40) vs the 50-digit object backend on the regular domain. METHOD LEVEL (Props/MethodBackends.lean, c08m_): the SymPy compute layer evS agrees with the real layer evR on 46 modules unconditionally and on 33 more under the regular-domain hypotheses; dispatch congruence; call evS = call evR for the planar/spatial accessors, rotations, scale, add/subtract/dot/cross, comparisons, deltas, conversions and (regular domain) the Lorentz accessors and boosts.",
   note=TB + "SymPy's own simplifier and constructors are trusted (sampled); both copies model nan_to_num as the identity (singular inputs excluded).",
   technique="Lean 4 proofs over two translator-generated copies (NumPy semantics vs SympyLib semantics) + evalf correspondence"),
 
@@ -125,7 +125,7 @@ CLAIMS = {
  "C13": dict(category="proof", design="4/C13",
   text="97 Lean theorems on the generated accessors and predicates: ranges of phi, deltaphi, theta, deltaangle; non-negativity; sign conventions of costheta/cottheta; t from tau >= 0; "
        "tau<0 iff spacelike; beta/gamma ranges; the three causal predicates pairwise disjoint and equal to the documented sign tests for every key and tolerance; "
-       "is_parallel/antiparallel/perpendicular iff cos(angle) within tolerance, for all key pairs. The float64 ranges (phi, deltaphi, theta, costheta, deltaangle never NaN) are swept on exactly (anti)parallel and axis-aligned operands for every pair of coordinate systems (exploration, not proof).",
+       "is_parallel/antiparallel/perpendicular iff cos(angle) within tolerance, for all key pairs. The float64 ranges (phi, deltaphi, theta, costheta, deltaangle never NaN) are swept on exactly (anti)parallel and axis-aligned operands for every pair of coordinate systems (exploration, not proof). CLOSURE (Props/CanonClosed.lean, 66 theorems): for all 31 modules with a vector result and every key, the stored coordinates of the RESULT are in range (0 <= rho, -pi <= phi < pi, 0 <= theta <= pi, 0 <= tau under the natural hypotheses); modules whose declared result is always Cartesian are covered by decide-checked table lemmas; machine-checked witnesses for negative-factor scale on tau storage, to_beta3 with t<0, tau-tau subtraction.",
   note=TB + "singular strata (answers produced by nan_to_num replacement values) are exercised only on the real code by the law sweep.",
   technique="Lean 4 proofs over translator-generated model; mp law sweep incl. boundary strata as failing-input search"),
  "C14": dict(category="proof", design="4/C14",
